@@ -133,19 +133,20 @@ def expected_call(files_data, sets, service, env_service):
 FILE2 = ["absent", "overrides a nested component option and adds a logging section", "replaces a nested dict by a scalar and sets a top-level option",
          "sets a nested key to null"]
 SETS = ["none", "component.opts.x=5", "logging.loggers.a\\.b.level=DEBUG", "max_threads=7", "component.opts.nested.y=[1, 2]", "component.opts={z: 1}",
-        "component.opts.x=null"]
+        "component.opts.x=null", "component.opts.t=!Env C16_VAR", "component.opts.f=!TextFile secret.txt"]
 SET_VALUES = {1: ("component.opts.x", 5), 2: ("logging.loggers.a\\.b.level", "DEBUG"), 3: ("max_threads", 7), 4: ("component.opts.nested.y", [1, 2]),
-              5: ("component.opts", {"z": 1}), 6: ("component.opts.x", None)}
+              5: ("component.opts", {"z": 1}), 6: ("component.opts.x", None), 7: ("component.opts.t", "from-env"),
+              8: ("component.opts.f", "file-text\n")}
 TAGS = ["none", "!Env", "!TextFile", "!BinaryFile"]
 
 
 def prec_params(tier):
-    return [P("file2", 0, 3), P("set1", 0, 6), P("set2", 0, 6), P("tag", 0, 3), P("svc", 0, 1)]
+    return [P("file2", 0, 3), P("set1", 0, 8), P("set2", 0, 8), P("tag", 0, 3), P("svc", 0, 1)]
 
 
 @guard
 def prec_fn(a, tier):
-    f2, s1, s2, tag, svc = pick(a["file2"], 4), pick(a["set1"], 7), pick(a["set2"], 7), pick(a["tag"], 4), pick(a["svc"], 2)
+    f2, s1, s2, tag, svc = pick(a["file2"], 4), pick(a["set1"], 9), pick(a["set2"], 9), pick(a["tag"], 4), pick(a["svc"], 2)
     tagged_yaml = {0: "plain", 1: "!Env C16_VAR", 2: "!TextFile secret.txt", 3: "!BinaryFile secret.txt"}[tag]
     tagged_val = {0: "plain", 1: "from-env", 2: "file-text\n", 3: b"file-text\n"}[tag]
     comp = {"type": "mod:Cls", "opts": {"x": 1, "nested": {"y": 1, "keep": True}, "tagged": tagged_val}}
